@@ -65,13 +65,13 @@ func vfC26Check(pfx string, res []serf.Member, err error, valid, want bool, m se
 // VfC26_Name: the name filter.
 //
 //vf:unwind 12
-//vf:bound inputs pattern from a family of 22 (16 valid incl. alternations, classes, repetition, empty alternatives; 6 invalid); member name: any ASCII string of length 0..3
+//vf:bound inputs pattern from a family of 22 (16 valid incl. alternations, classes, repetition, empty alternatives; 6 invalid); member name: any ASCII string of length 0..3 (thorough 0..4)
 //vf:stub regexp: patterns compiled by the real regexp/syntax; MatchString on symbolic subjects encoded exactly (NFA simulation over the bounded byte string)
 //vf:outside symbolic patterns; non-ASCII subjects; subjects longer than the bound
 func VfC26_Name() {
 	i := &AgentIPC{}
 	pat := vfC26Patterns[vfChoice("pat", len(vfC26Patterns))]
-	m := serf.Member{Name: vfString("name", 3), Status: serf.StatusAlive}
+	m := serf.Member{Name: vfString("name", 3+vfTier()), Status: serf.StatusAlive}
 	res, err := i.filterMembers([]serf.Member{m}, nil, "", pat)
 	valid, match := vfFull(pat, m.Name)
 	vfC26Check("C26.name", res, err, valid, match, m)
@@ -98,7 +98,7 @@ func VfC26_Status() {
 // 0..2) or lacks it (counts as empty).
 //
 //vf:unwind 12
-//vf:bound inputs pattern family as VfC26_Name plus the empty pattern; tag present with any ASCII value of length 0..2, or absent
+//vf:bound inputs pattern family as VfC26_Name plus the empty pattern; tag present with any ASCII value of length 0..2 (thorough 0..3), or absent
 func VfC26_Tag() {
 	i := &AgentIPC{}
 	k := vfChoice("pat", len(vfC26Patterns)+1)
@@ -109,7 +109,7 @@ func VfC26_Tag() {
 	m := serf.Member{Name: "n", Status: serf.StatusAlive, Tags: map[string]string{"dc": "x"}}
 	val := ""
 	if vfBool("hasTag") {
-		val = vfString("val", 2)
+		val = vfString("val", 2+vfTier())
 		m.Tags["role"] = val
 	}
 	res, err := i.filterMembers([]serf.Member{m}, map[string]string{"role": pat}, "", "")
